@@ -35,8 +35,10 @@ def one(d):
 if __name__ == "__main__":
     dirs = [d for d in sorted(glob.glob("/verif/benign/C*-b*")) if not want or os.path.basename(d) in want or os.path.basename(d).split("-")[0] in want]
     bad = 0
+    status = {}
     with ProcessPoolExecutor(16) as ex:
         for sid, st, res in ex.map(one, dirs):
+            status[sid] = {"state": st, "reports": res}
             if st != "ok":
                 print(sid, st)
             elif res:
@@ -47,4 +49,6 @@ if __name__ == "__main__":
             else:
                 print(sid, "silent")
     print(f"{len(dirs)} refactors, {bad} with a report")
+    if "--write" in sys.argv and every and not want:
+        json.dump(status, open("/verif/benign/status.json", "w"), indent=1, sort_keys=True)
     sys.exit(1 if bad else 0)
